@@ -10,19 +10,21 @@ LEVEL = "fault_enumeration"
 EXHAUSTIVE = False
 RULE = ("(enumerated completely in both tiers) every chain nesting of depth 1..4 over the three managers {no_autodiff, mem_guard_off, "
         "mem_guard_on} x two forms {with-block, decorator} x every exception placement (no exception, or a user exception raised at the innermost "
-        "level and caught after unwinding j = 1..depth levels): 7464 scope programs; (random) seeded scope TREES up to depth 12 with branching, "
+        "level and caught after unwinding j = 1..depth levels; the exception an Exception or a BaseException, which is what KeyboardInterrupt / "
+        "SystemExit look like): 13374 scope programs; (random) seeded scope TREES up to depth 12 with branching, "
         "re-entrant use of the same manager, recursive decorated functions, no_autodiff(f, to_numpy=True), exceptions raised at any depth and "
         "caught at any shallower depth, and turn_memory_guarding_on/off calls inside and outside scopes. M-ctx: a shadow stack predicts "
         "(TRACK_GRAPH, MEM_GUARD) after every enter, before and after every exit and after every turn_* call; the real switches must equal it, "
         "and be back to the defaults at the end. At every level where tracking is off a probe workload checks the no_autodiff contract: results "
         "have no creator and no base (also for view ops), inputs gain no consumers and keep their gradient, no array gets locked, in-place "
         "updates write straight into the tensor's own memory (same array object, visible through a NumPy view), backward() writes nothing, and "
-        "values/dtypes equal the tracked run; each probe also replays one entry of a 31-call mixed-precision catalogue (batchnorm / conv_nd / "
-        "softmax / losses / matmul / einsum / reductions / power / where / joins over float16-float32-float64-int8 operand mixes) and demands "
-        "the tracked call's dtype and bit-identical values. Non-trivial: depth>=2 or an exception; distinct = scope-tree signature.")
+        "values/dtypes equal the tracked run; each probe also replays one entry of a 71-call catalogue (mixed-precision batchnorm / conv_nd / "
+        "softmax / losses / matmul / einsum / reductions / power / where / joins over float16-float32-float64-int8 operand mixes; every nnet "
+        "activation on inputs with infinities, zeros of both signs, negative, boolean and int8 data) and demands the tracked call's dtype and "
+        "bit-identical values (the sign of a zero included). Non-trivial: depth>=2 or an exception; distinct = scope-tree signature.")
 ASSUMPTIONS = ["only LIFO nestings (contexts/decorators); generator-suspended scopes are not nestings",
                "turn_memory_guarding_* inside a scope sets the current value and the scope restores its saved value on exit"]
-N_CHAIN = sum(6 ** L * (1 + L) for L in range(1, 5))
+N_CHAIN = sum(6 ** L * (1 + 2 * L) for L in range(1, 5))
 TIERS = {"quick": {"cases": N_CHAIN + 12000}, "thorough": {"cases": N_CHAIN + 600000}}
 FLOORS = {"quick": {"state_checks": 60000, "noautodiff_probes": 8000, "catalogue_compared": 8000, "chain_cases": N_CHAIN},
           "thorough": {"state_checks": 300000, "noautodiff_probes": 40000, "catalogue_compared": 40000, "chain_cases": N_CHAIN}}
@@ -33,7 +35,7 @@ FORMS = ["with", "deco"]
 def chain_cases():
     for L in range(1, 5):
         for combo in itertools.product(itertools.product(MGRS, FORMS), repeat=L):
-            for exc in range(0, L + 1):   # 0: none; j: raised innermost, caught after unwinding j levels
+            for exc in range(0, 2 * L + 1):   # 0: none; j <= L: an Exception raised innermost, caught after unwinding j levels; L + j: a BaseException
                 yield combo, exc
 
 
@@ -48,9 +50,12 @@ def gen_case(rng, cfg, idx):
         combo, exc = _CHAINS[idx]
         node = None
         L = len(combo)
+        base_exc = exc > L
+        if base_exc:
+            exc -= L
         for d in range(L - 1, -1, -1):
             m, f = combo[d]
-            n = {"m": m, "form": f, "children": [node] if node else [], "raise": (d == L - 1 and exc > 0), "catch": False, "acts": ["probe"]}
+            n = {"m": m, "form": f, "children": [node] if node else [], "raise": (d == L - 1 and exc > 0) and ("base" if base_exc else True), "catch": False, "acts": ["probe"]}
             node = n
         # catching level: the exception unwinds `exc` levels: the try/except sits around the node at depth L-exc
         root = {"m": None, "children": [node], "catch": False, "acts": []}
@@ -62,7 +67,7 @@ def gen_case(rng, cfg, idx):
             cur["catch"] = True
         return {"tree": root, "chain": True}
     def tree(depth, maxd):
-        n = {"m": rng.choice(MGRS), "form": rng.choice(["with", "deco", "deco", "deco_np", "rec"]), "children": [], "raise": rng.random() < 0.15,
+        n = {"m": rng.choice(MGRS), "form": rng.choice(["with", "deco", "deco", "deco_np", "rec"]), "children": [], "raise": (rng.random() < 0.15) and rng.choice([True, True, "base"]),
              "catch": rng.random() < 0.3, "acts": [rng.choice(["probe", "probe", "turn_on", "turn_off", "none"]) for _ in range(rng.randint(0, 2))]}
         if n["form"] == "deco_np" and n["m"] != "no_autodiff":
             n["form"] = "deco"
@@ -77,6 +82,10 @@ def gen_case(rng, cfg, idx):
 
 class UserErr(Exception):
     pass
+
+
+class UserBaseErr(BaseException):
+    """what KeyboardInterrupt / SystemExit / a cancelled task look like to the scopes: not an Exception subclass"""
 
 
 _CATALOGUE = None
@@ -135,9 +144,29 @@ def catalogue(mg):
         ("concatenate(f16, f32)", lambda: mg.concatenate([T(x16), T(x32)], axis=0)),
         ("astype-free view chain f32[...,0].T @ f64", lambda: T(x32)[..., 0].T @ T(x64[..., 1])),
     ]
+    # activations on inputs with negative entries, zeros of both signs, infinities and non-float dtypes (results compared bit for bit, the sign of
+    # a zero included)
+    from mygrad.nnet import activations as A
+    special = np.array([-np.inf, -2.5, -0.0, 0.0, 0.5, 3.0, np.inf])
+    acts = [("relu", {}), ("leaky_relu", {"slope": 0.1}), ("elu", {"alpha": 1.5}), ("selu", {}), ("sigmoid", {}), ("tanh", {}), ("hard_tanh", {}),
+            ("soft_sign", {}), ("softmax", {}), ("logsoftmax", {}), ("glu", {})]
+    for an, kw in acts:
+        f = getattr(A, an, None)
+        if f is None:
+            continue
+        for tag, arr in (("special f64", special), ("negatives f32", -np.abs(m32[0])), ("bool", np.array([True, False, True, False])), ("int8", i8[1] - 3)):
+            def th(f=f, arr=arr, kw=kw):
+                return f(T(arr), **kw)
+            try:
+                with np.errstate(all="ignore"):
+                    th().clear_graph()
+            except Exception:
+                continue      # (not an input this activation accepts with tracking on)
+            ents.append((f"{an}({tag})", th))
     out = []
     for name, thunk in ents:
-        r = thunk()
+        with np.errstate(all="ignore"):
+            r = thunk()
         out.append((name, thunk, r.dtype, np.array(r.data, copy=True)))
         r.clear_graph()
         del r
@@ -268,8 +297,8 @@ class Runner:
                     r = thunk()
                 if r.dtype != dt:
                     bad.append(f"dtype differs from the tracked computation: {name}: {r.dtype} vs tracked {dt}")
-                elif not np.array_equal(r.data, val, equal_nan=True):
-                    bad.append(f"value differs from the tracked computation: {name}")
+                elif not np.array_equal(r.data, val, equal_nan=True) or np.ascontiguousarray(r.data).tobytes() != np.ascontiguousarray(val).tobytes():
+                    bad.append(f"value differs from the tracked computation (bit for bit): {name}")
                 if r.creator is not None or r.base is not None:
                     bad.append(f"result has a creator/base: {name}")
             except Exception as e:
@@ -299,7 +328,7 @@ class Runner:
         if node.get("catch"):
             try:
                 self._run_node(node, depth, where)
-            except UserErr:
+            except (UserErr, UserBaseErr):
                 self.cnt["exceptions_unwound"] += 1
                 self.check(where + " after catching the exception")
         else:
@@ -327,6 +356,9 @@ class Runner:
             me.run_children(node, depth, where)
             me.check(f"{where} before leaving {m}")
             if node.get("raise"):
+                if node["raise"] == "base":
+                    me.cnt["base_exceptions_raised"] = me.cnt.get("base_exceptions_raised", 0) + 1
+                    raise UserBaseErr()
                 raise UserErr()
             return np.float64(1.0) if node["form"] != "deco_np" else me.mg.tensor([1.0])
 
@@ -359,7 +391,7 @@ class Runner:
 def sig_of(node):
     if node is None:
         return ""
-    return f"{(node.get('m') or 'root')[:3]}{node.get('form', '')[:1]}{'!' if node.get('raise') else ''}{'c' if node.get('catch') else ''}" \
+    return f"{(node.get('m') or 'root')[:3]}{node.get('form', '')[:1]}{('B' if node.get('raise') == 'base' else '!') if node.get('raise') else ''}{'c' if node.get('catch') else ''}" \
            f"{''.join(a[0] + a[-1] for a in node.get('acts', []))}({','.join(sig_of(c) for c in node['children'])})"
 
 
@@ -385,7 +417,7 @@ def run_case(case):
         r.check("start")
         try:
             r.run_node(case["tree"], 0, "root")
-        except UserErr:
+        except (UserErr, UserBaseErr):
             r.cnt["exceptions_unwound"] += 1
         # back at top level: scopes are all closed; only turn_* calls made OUTSIDE any scope may have changed the default
         r.check("end (all scopes closed)")
